@@ -12,6 +12,7 @@
 package buffer
 
 //@ func NewView props C16
+//@   inline
 //@   requires 0 <= size && size <= 1 << 40
 //@   ensures len(result) == size && cap(result) == size && fresh(result)
 //@   ensures forall(k, 0, size, result[k] == 0)
@@ -101,6 +102,7 @@ package buffer
 // buf[usedIdx:].
 
 //@ func NewPrependable props C16 C06
+//@   inline
 //@   requires 0 <= size && size <= 1 << 40
 //@   ensures result.usedIdx == size && len(result.buf) == size && fresh(result.buf)
 
@@ -108,14 +110,17 @@ package buffer
 //@   ensures result.usedIdx == 0 && arr(result.buf) == arr(v) && off(result.buf) == off(v) && len(result.buf) == len(v)
 
 //@ func (Prependable).View props C16 C06
+//@   inline
 //@   requires 0 <= p.usedIdx && p.usedIdx <= len(p.buf)
 //@   ensures arr(result) == arr(p.buf) && off(result) == off(p.buf) + p.usedIdx && len(result) == len(p.buf) - p.usedIdx
 
 //@ func (Prependable).UsedLength props C16 C06
+//@   inline
 //@   ensures result == len(p.buf) - p.usedIdx
 
 // Prepend(n) returns the n bytes immediately in front of the used part, or nil iff n > usedIdx.
 //@ func (*Prependable).Prepend props C16 C06
+//@   inline
 //@   requires 0 <= p.usedIdx && p.usedIdx <= len(p.buf) && size >= 0
 //@   ensures implies(size > old(p.usedIdx), len(result) == 0 && arr(result) == 0 && p.usedIdx == old(p.usedIdx))
 //@   ensures implies(size <= old(p.usedIdx), p.usedIdx == old(p.usedIdx) - size && arr(result) == arr(p.buf)
